@@ -14,8 +14,7 @@ C01-10 C05-9 C05-10 C06-9 C07-9 C10-10 C11-10 C13-9 C14-10 C15-10 C16-10 C17-9 C
 C12-11 C17-11 C19-11
 C04-12 C05-12 C08-12 C15-12 C16-12 C18-12'''.split())
 INCONCLUSIVE_FIRST = {'C03-3', 'C04-3', 'C14-4', 'C16-3', 'C18-4', 'C05-5', 'C11-8', 'C02-9', 'C08-10', 'C12-10', 'C13-10', 'C20-9'}
-OTHER_FIRST = {'C04-12': '**missed** - and still missed: see the note on C04-12 in 0.6',
-               'C02-10': '**missed** by C02 (no misbehaving-responder harness there); caught by C11, whose subject it is',
+OTHER_FIRST = {'C02-10': '**missed** by C02 (no misbehaving-responder harness there); caught by C11, whose subject it is',
                'C10-9': 'caught (on the tree before the F25 repair; does not apply afterwards)',
                'C18-9': 'caught on the tree before the F23 repair, by the harness written for F23 (does not apply afterwards)'}
 
